@@ -12,9 +12,12 @@ T2 correspondences (the real function and the model evaluated by vm_compute on t
              mixin classes with other in-feature bounds (name first, options fallback, "&", "~")
   match    : match_feature_group_criteria and the operation extraction of the two built-in groups
   json     : load_features_from_config on valid documents and on mutations that violate the published schema
+  columns  : get_column_base_feature, resolve_multi_column_feature and the default matcher of a root group on "~" names
 End to end (mloda.run_all, Pandas and PyArrow, trace through an Extender hook):
   e2e      : a chain written as a name, as nested options and as a JSON document: values, value oracle, group trace
   e2e_bad  : malformed names and schema-invalid documents must be rejected; the verdict is compared with the model
+  subcol   : chains over a sub-column source (m~1) in the three notations
+  unprot   : nested option / JSON descriptions without feature_chainer_parser_key protection (equal or rejected)
 """
 from __future__ import annotations
 
@@ -40,6 +43,7 @@ KF_UNHASHABLE = "C16-unhashable-in-features-spelling"
 KF_NESTED = "C16-nested-options-need-protected-keys"
 KF_UNTYPED = "C16-json-untyped-fields-accepted"
 KF_DROPPED = "C16-json-options-silently-dropped"
+KF_SUBCOL = "C16-subcolumn-source-name-claimed-by-producer"
 
 # ------------------------------------------------------------------------------------------------------------
 # Coq side: generated group universe and checkers (all over the model definitions of Model/*.v)
@@ -116,6 +120,27 @@ Definition predict_json (j : json) := match load j with Ok [f] => predict f | _ 
 Definition chk_run_json (c : json * option (list (nat * pv))) :=
   opt_trace_eqb (snd c) (predict_json (fst c))
   || (negb (doc_valid (fst c)) && match snd c with None => true | Some _ => false end).
+(* sub-columns: the source group supports a, b and the two-column feature m *)
+Definition sup := [lit "a"; lit "b"; lit "m"].
+Definition is_col_m (f : pv) := match f with PFeat (PStr s) _ _ => existsb (str_eqb s) [lit "a"; lit "b"; lit "m~0"; lit "m~1"] | _ => false end.
+Definition predict_m (f : pv) : option (list (nat * pv)) :=
+  match resolve_chain uni 8 f with
+  | WEnd ops last => if forallb valid_op ops && is_col_m last then Some (rev ops) else None
+  | WStuck _ _ => None
+  end.
+Definition predict_m_json (j : json) := match load j with Ok [f] => predict_m f | _ => None end.
+(* (name, options feature, document), expected trace: the name is claimed by the producer of m as well; the other two
+   notations resolve to the trace *)
+Definition chk_subcol (c : (str * pv * json) * list (nat * pv)) :=
+  match c with ((n, o, j), t) =>
+    root_claims sup n && opt_trace_eqb (predict_m (feat n)) (Some t)
+    && opt_trace_eqb (predict_m o) (Some t) && opt_trace_eqb (predict_m_json j) (Some t)
+    && match o with PFeat (PStr x) _ _ => negb (root_claims sup x) | _ => false end end.
+(* name, (observed base, observed resolve as a set over the given columns, observed default-matcher verdict) *)
+Definition str_set_eqb (a b : list str) := forallb (fun x => existsb (str_eqb x) b) a && forallb (fun y => existsb (str_eqb y) a) b.
+Definition chk_columns (c : (str * list str) * (str * list str * bool)) :=
+  match c with ((n, cols), (b, r, m)) =>
+    str_eqb b (column_base n) && str_set_eqb r (resolve_multi_column n cols) && Bool.eqb m (root_claims sup n) end.
 (* the three notations of one chain: name, options, JSON; expected trace in application order *)
 Definition chk_triple (c : (pv * pv * json) * list (nat * pv)) :=
   match c with ((n, o, j), t) =>
@@ -695,6 +720,9 @@ def json_term(doc: Any, obs: Any) -> str:
 # end to end
 # ------------------------------------------------------------------------------------------------------------
 DATA = {"a": [1.0, None, 3.0, 4.0, None, 3.0], "b": [2.0, 5.0, None, 1.0, 7.0, 6.0]}
+# the source group also produces the two-column feature "m" (columns m~0, m~1)
+MULTI = {"m~0": [1.0, 2.0, None, 4.0, 5.0, 6.0], "m~1": [10.0, None, 30.0, 40.0, 50.0, 60.0]}
+SUPPORTED = ["a", "b", "m"]
 FWS = ["PandasDataFrame", "PyArrowTable"]
 AGGR_ORACLE = ["sum", "min", "max", "avg", "mean", "count"]
 MV_ORACLE = ["mean", "ffill", "bfill"]
@@ -726,10 +754,11 @@ def env(fw: str) -> Any:
         from mloda_plugins.feature_group.experimental.data_quality.missing_value.pyarrow import PyArrowMissingValueFeatureGroup as M  # type: ignore[assignment]
 
     def input_data(cls: Any) -> Any:
-        return DataCreator(set(DATA))
+        return DataCreator(set(SUPPORTED))
 
     def calculate_feature(cls: Any, data: Any, features: Any) -> Any:
-        return pd.DataFrame(DATA) if fw == "PandasDataFrame" else pa.table(DATA)
+        cols = {**DATA, **MULTI}
+        return pd.DataFrame(cols) if fw == "PandasDataFrame" else pa.table(cols)
 
     def compute_framework_rule(cls: Any) -> Any:
         return {CF}
@@ -881,7 +910,7 @@ def json_chain(src: str, ops: Sequence[Sequence[Any]], form: str, protect: bool)
 
 def oracle(src: str, ops: Sequence[Sequence[Any]]) -> Optional[List[Optional[Fraction]]]:
     """reference values, operations applied left to right; None when an operation is outside the reference subset"""
-    col: List[Optional[Fraction]] = [None if x is None else Fraction(x) for x in DATA[src]]
+    col: List[Optional[Fraction]] = [None if x is None else Fraction(x) for x in {**DATA, **MULTI}[src]]
     n = len(col)
     for gi, op in ops:
         present = [x for x in col if x is not None]
@@ -1309,6 +1338,96 @@ def run(rep: vlib.Reporter, tier: str, seed: int) -> None:
     rep.add("e2e_unprotected", ust)
 
     mark("e2e_unprotected")
+    # ---------------------------------------------------------------- sub-columns: unit level and end to end
+    from mloda.provider import FeatureGroup as _FG
+    from mloda.user import Options as _Options
+    src_cls = env("PandasDataFrame")["src"]
+    cc = []
+    col_pool = ["m~0", "m~1", "m", "a", "m~10", "mm~0", "a~0", "m~", "x__y~0", "x__y~1", "~0"]
+    for _ in range(6000 if big else 500):
+        r = rng.random()
+        if r < 0.3:
+            nm = rng.choice(["m", "x__y", "a", "mm", "m~"])
+        elif r < 0.6:
+            nm = rng.choice(["m", "m~0", "m~1", "a", "a~1", "m~1~2", "~", "m~", "~m", "x__y", "x__y~0", "b~x", "mm", "", "m~1__sum_aggr",
+                             "a~0__mean_imputed__sum_aggr", "c~0", "m ~1"])
+        else:
+            nm = "".join(rng.choice("amb~~_") for _ in range(rng.randrange(0, 6)))
+        cols = sorted(set(rng.sample(col_pool, rng.randrange(0, 9))))
+        try:
+            obs = [_FG.get_column_base_feature(nm), sorted(_FG.resolve_multi_column_feature(nm, set(cols))),
+                   bool(src_cls.match_feature_group_criteria(nm, _Options()))]
+        except Exception as e:  # noqa: BLE001
+            obs = None
+            finding(f"columns-exc:{nm!r}", f"sub-column helpers raised {type(e).__name__} on {nm!r}", {"kind": "columns", "name": nm, "cols": cols})
+            continue
+        cc.append({"name": nm, "cols": cols, "obs": obs})
+    bad, info = vlib.run_cases("C16", "columns", REQ, "chk_columns",
+                               [f"(({cqs(c['name'])}, {cq_list(cqs(x) for x in c['cols'])}), ({cqs(c['obs'][0])}, "
+                                f"{cq_list(cqs(x) for x in c['obs'][1])}, {cq_bool(c['obs'][2])}))" for c in cc],
+                               extra_defs=EXTRA, case_type="(str * list str) * (str * list str * bool)")
+    rep.count(len(cc))
+    for c in cc:
+        if c["obs"][2] or len(c["obs"][1]) > 1:
+            rep.nontrivial(("c", c["name"], c["cols"]))
+    rep.add("columns", {**info, "cases": len(cc), "claimed_by_root": sum(1 for c in cc if c["obs"][2]),
+                        "multi_column_resolutions": sum(1 for c in cc if len(c["obs"][1]) > 1), "disagreements": len(bad)})
+    for i in bad[:5]:
+        c = cc[i]
+        finding(f"columns:{c['name']!r}:{c['cols']}", f"get_column_base_feature / resolve_multi_column_feature / default matcher on {c['name']!r} "
+                f"with columns {c['cols']} give {c['obs']} — differs from the model", {"kind": "columns", **c})
+
+    sst = {"cases": 0, "name_rejected_known": 0, "all_equal": 0}
+    sub_terms, sub_cases = [], []
+    for _ in range(600 if big else 40):
+        src = rng.choice(["m~0", "m~1"])
+        _, ops = gen_chain(rng, 2, oracle_only=True)
+        fw = rng.choice(FWS)
+        c = {"kind": "triple", "fw": fw, "src": src, "ops": ops, "sp": rng.choice(["str", "fset", "feat"]), "inner_sp": "feat",
+             "place": rng.choice(["context", "group"]), "form": rng.choice(["nested", "context", "options", "mixed"]), "protect": True,
+             "name": chain_name(src, ops), "k": len(ops)}
+        if c["form"] in ("context", "options", "mixed") and len(ops) > 1:
+            c["form"] = "nested"          # the inner part of those forms is a chained name again
+        c["O"] = options_chain(src, ops, c["sp"], "feat", c["place"], True)
+        c["J"] = json_chain(src, ops, c["form"], True)
+        r = run_triple(c)
+        sst["cases"] += 1
+        rep.count(3)
+        orc = oracle(src, ops)
+        vn, vo, vj = value_of(r["N"], c["name"]), value_of(r["O"], f"ph{c['k']}"), value_of(r["J"], f"ph{c['k']}")
+        exp_trace = [[gi, op] for gi, op in ops]
+        replay = {**{k: c[k] for k in ("kind", "fw", "src", "ops", "sp", "inner_sp", "place", "form", "protect", "name", "O", "J", "k")},
+                  "res": {k: {"ok": v["ok"], "exc": v.get("exc"), "msg": (v.get("msg") or "")[:200]} for k, v in r.items()}}
+        if not (vo is not None and vj is not None and orc is not None and same_values(vo, orc) and same_values(vj, orc)
+                and observed_trace(r["O"]) == exp_trace and observed_trace(r["J"]) == exp_trace):
+            finding(f"e2e-subcol:{c['name']}:{json.dumps(c['O'])}:{fw}", f"option / JSON notation over the sub-column source {src}: options "
+                    f"{vo if vo is not None else replay['res']['O']}, JSON {vj if vj is not None else replay['res']['J']}, reference "
+                    f"{None if orc is None else [None if x is None else float(x) for x in orc]}", replay)
+            continue
+        if vn is not None and same_values(vn, orc) and observed_trace(r["N"]) == exp_trace:
+            sst["all_equal"] += 1          # repaired behaviour
+        elif not r["N"]["ok"] and r["N"].get("exc") == "ValueError" and "Multiple feature groups" in (r["N"].get("msg") or ""):
+            sst["name_rejected_known"] += 1
+            rep.finding(KF_SUBCOL, "chained name over a sub-column source is ambiguous", replay)
+            if not any(k["key"] == KF_SUBCOL for k in rep.kf):
+                found = True
+        else:
+            finding(f"e2e-subcol-name:{c['name']}:{fw}", f"chained name {c['name']} over a sub-column source: "
+                    f"{vn if vn is not None else replay['res']['N']}; the option and JSON notations give {vo}", replay)
+            continue
+        rep.nontrivial(("s", src, ops, c["sp"], c["place"], c["form"], fw))
+        sub_cases.append(c)
+        sub_terms.append(f"(({cqs(c['name'])}, {cq_pv(c['O'])}, {cq_json(c['J'])}), "
+                         f"{cq_list(f'({cq_nat(g)}, {cq_pv(o)})' for g, o in exp_trace)})")
+    bad, info = vlib.run_cases("C16", "subcol", REQ, "chk_subcol", sub_terms, extra_defs=EXTRA,
+                               case_type="(str * pv * json) * list (nat * pv)", shard=200)
+    sst["model_disagreements"] = len(bad)
+    for i in bad[:3]:
+        c = sub_cases[i]
+        finding(f"e2e-subcol-model:{c['name']}", "the model does not predict the sub-column behaviour observed",
+                {k: c[k] for k in ("kind", "fw", "src", "ops", "sp", "inner_sp", "place", "form", "protect", "name", "O", "J", "k")})
+    rep.add("e2e_subcolumns", {**info, **sst})
+    mark("subcolumns")
     # ---------------------------------------------------------------- end to end: malformed names and invalid documents
     from mloda.user import Feature
     bn = []
@@ -1412,10 +1531,21 @@ def run(rep: vlib.Reporter, tier: str, seed: int) -> None:
 
     mark("e2e_names_documents")
     rep.add("phase_seconds", phase_s)
+    rep.notes += [
+        "observed, not part of the statement: a Feature nested inside a frozenset as in_features makes run_all super-exponentially slow "
+        "in the nesting depth (about 0.01 s, 0.2 s, 10 s, > 120 s for 1..4 levels; values are right) — generators keep one such level",
+        "observed: a trailing newline is tolerated by the `$` of the patterns (a__sum_aggr\\n is computed as the sum of a); this is part "
+        "of the proved characterisation (nlopt)",
+        "observed: '&' binds loosest — a&b__op1__op2 reads as op2 over the inputs a and b__op1, so a multi-input name cannot be chained "
+        "further by name when the outer group takes one input (ValueError from the in-feature count)",
+        "observed: the nested JSON form turns a one-element in_features list into a plain string, which get_in_features then splits at "
+        "commas; a source name containing ',' therefore differs between the notations (theorem hypothesis: no comma in the source)",
+        "observed: docs/in_depth/feature-config.md lists propagate_context_keys as a field; FeatureConfig and the published schema reject it"]
     rep.add("rule", "parse: generated well-formed chains (depth 1-4, 14 atoms x 10 ops x 5 suffixes), malformed mutations, a fixed list, and ALL "
                     "strings over {a,_,-,newline} up to the stated length with 3 endings; in_features spellings; (group, name, options) "
                     "triples on 5 groups; JSON documents: valid forms and schema-violating mutations; end to end: PRNG chains over {aggr, "
-                    "imputed} of depth <= 4 in three notations on Pandas and PyArrow. non-trivial = a parse that succeeds or raises, a non-"
+                    "imputed} of depth <= 4 in three notations on Pandas and PyArrow, the same over sub-column sources, nested notations "
+                    "without protected keys, malformed names and schema-invalid documents through run_all. non-trivial = a parse that succeeds or raises, a non-"
                     "empty in-feature set, a match that is true, an accepted document, a triple whose three notations computed equal values")
     for smp in (cases[0], ic[3], {k: fc[0][k] for k in ("gi", "name", "group", "context")}, jc[3],
                 {k: tc[0][k] for k in ("fw", "name", "O", "J")}, bn[0]):
